@@ -101,3 +101,25 @@ Definition relay_run (p : hcpolicy) (n : nat) (k : endkind) (sched : list nat) :
   run _ _ (hstep p) ({| h_peerB_sees_end := false; h_peerA_sees_end := false |}, [HCopy n k; HListen]) sched.
 Definition relay_returned (s : hshared * list hthread) : bool :=
   match snd s with [HDone; HDone] => true | _ => false end.
+
+(* -------------------------------------------------------------------------------------------------
+   One direction's end must not truncate the other (request/response over a transport WITHOUT half-close):
+   thread 0 = direction A->B: n chunks, then EOF, then tryCloseWrite(connB) -> readWriteCloser.CloseWrite, which on a
+   transport without half-close does nothing (NoopOnNoCap, the code) or closes the whole stream (CloseOnNoCap, seeded C02-12);
+   thread 1 = direction B->A: m chunks, each delivered only while the stream is open. *)
+Inductive nocap_policy := NoopOnNoCap | CloseOnNoCap.
+Inductive tthread := TReq (n : nat) | TReqHalfClose | TReqDone | TResp (m : nat) | TRespDone (truncated : bool).
+Record tshared := { t_stream_closed : bool; t_delivered : nat }.
+Definition tstep (p : nocap_policy) (t : tthread) (sh : tshared) : tthread * tshared :=
+  match t with
+  | TReq (S n) => (TReq n, sh)
+  | TReq O => (TReqHalfClose, sh)
+  | TReqHalfClose => (TReqDone, match p with NoopOnNoCap => sh | CloseOnNoCap => {| t_stream_closed := true; t_delivered := t_delivered sh |} end)
+  | TReqDone => (t, sh)
+  | TResp (S m) => if t_stream_closed sh then (TRespDone true, sh)
+                   else (TResp m, {| t_stream_closed := false; t_delivered := S (t_delivered sh) |})
+  | TResp O => (TRespDone false, sh)
+  | TRespDone _ => (t, sh)
+  end.
+Definition reqresp_run (p : nocap_policy) (n m : nat) (sched : list nat) : tshared * list tthread :=
+  run _ _ (tstep p) ({| t_stream_closed := false; t_delivered := 0 |}, [TReq n; TResp m]) sched.
